@@ -376,5 +376,69 @@ example : verdicts {} St.init sampleRun = List.replicate 17 "ok" := by decide +k
 example : (match tracePop { s := { St.init with queues := [(1, [⟨1, some 1, false, 0, false⟩])] } } .none_ with
            | .bad _ => true | _ => false) = true := by decide +kernel
 
-end Fp.C20
+/-! ### the other direction: what an accepted answer guarantees (the oracle is not too lenient either) -/
 
+/-- a DATA release the oracle accepts is a frame at the head of that stream's queue, released while no control frame is
+queued, and — unless it is an empty frame — within the stream window, the connection window and the maximum frame size -/
+theorem accepted_data_within_windows (t t' : TSt) (sid len : Nat) (es : Bool)
+    (h : tracePop t (.data sid len es) = .ok t') :
+    t.s.control = [] ∧ ∃ r rest, queueOf t.s sid = some (r :: rest) ∧ r.isData = true ∧ len ≤ r.size ∧
+      (len = 0 ∨ (len : Int) ≤ allowed t.s sid) := by
+  unfold tracePop at h
+  by_cases hc : t.s.control.isEmpty = true
+  · have hc' : t.s.control = [] := List.isEmpty_iff.mp hc
+    simp only [hc, Bool.not_true, Bool.false_eq_true, if_false] at h
+    refine ⟨hc', ?_⟩
+    cases hq : queueOf t.s sid with
+    | none => rw [hq] at h; cases h
+    | some q =>
+      cases q with
+      | nil => rw [hq] at h; cases h
+      | cons r rest =>
+        rw [hq] at h
+        simp only at h
+        refine ⟨r, rest, rfl, ?_⟩
+        by_cases hd : r.isData = true
+        · simp only [hd, Bool.not_true, Bool.false_eq_true, if_false] at h
+          refine ⟨hd, ?_⟩
+          by_cases hz : r.size = 0
+          · rw [if_pos hz] at h
+            by_cases h0 : len = 0 ∧ es = r.es
+            · exact ⟨by omega, Or.inl h0.1⟩
+            · rw [if_neg h0] at h; cases h
+          · rw [if_neg hz] at h
+            by_cases hl0 : len = 0
+            · rw [if_pos hl0] at h; cases h
+            · rw [if_neg hl0] at h
+              by_cases hal : (len : Int) > allowed t.s sid
+              · rw [if_pos hal] at h; cases h
+              · rw [if_neg hal] at h
+                by_cases hgt : len > r.size
+                · rw [if_pos hgt] at h; cases h
+                · exact ⟨by omega, Or.inr (by omega)⟩
+        · have hd' : r.isData = false := by simpa using hd
+          simp [hd'] at h
+  · have : t.s.control.isEmpty = false := by simpa using hc
+    simp [this] at h
+
+/-- "nothing to write" is accepted only when no control frame, no floating frame and no sendable stream frame is queued -/
+theorem accepted_none_means_nothing_sendable (t t' : TSt) (h : tracePop t .none_ = .ok t') :
+    t.s.control = [] ∧ t.floating = [] ∧ ∀ e ∈ t.s.queues, ready t.s e = false := by
+  unfold tracePop at h
+  by_cases hc : t.s.control.isEmpty = true
+  · simp only [hc, Bool.not_true, Bool.false_eq_true, if_false] at h
+    by_cases hf : t.floating.isEmpty = true
+    · simp only [hf, Bool.not_true, Bool.false_eq_true, if_false] at h
+      cases hq : t.s.queues.find? (ready t.s) with
+      | some e => rw [hq] at h; cases h
+      | none =>
+        refine ⟨List.isEmpty_iff.mp hc, List.isEmpty_iff.mp hf, ?_⟩
+        intro e he
+        have := List.find?_eq_none.mp hq e he
+        simpa using this
+    · have : t.floating.isEmpty = false := by simpa using hf
+      simp [this] at h
+  · have : t.s.control.isEmpty = false := by simpa using hc
+    simp [this] at h
+
+end Fp.C20
